@@ -326,12 +326,25 @@ def shrink(mod, binpath, drvpath, case, kind):
 
 
 def run_check(prop, tier='quick', seed=None, replay=None):
+    gen_dir = os.path.join(LEAN, 'Ruint', 'Gen')
+
+    def snap():
+        out = {}
+        for dp, dn, fn in os.walk(gen_dir):
+            for x in fn:
+                p = os.path.join(dp, x)
+                out[p] = hashlib.sha256(open(p, 'rb').read()).hexdigest()
+        return out
+    before = snap() if REPO != '/repo' else {}
     try:
         return _run_check(prop, tier, seed, replay)
     finally:
         if REPO != '/repo':
-            # a scratch-tree run regenerated lean/Ruint/Gen from that tree: restore the committed files
-            sh(['git', 'checkout', '--', 'lean/Ruint/Gen'], cwd=ROOT)
+            # a scratch-tree run regenerated some lean/Ruint/Gen files from that tree: restore exactly those
+            after = snap()
+            touched = [p for p in after if before.get(p) != after[p]]
+            if touched:
+                sh(['git', 'checkout', '--'] + [os.path.relpath(p, ROOT) for p in touched], cwd=ROOT)
 
 
 def _run_check(prop, tier='quick', seed=None, replay=None):
